@@ -157,14 +157,15 @@ _END_CACHE = {}
 _TMPL_CACHE = {}
 
 
-def end_molecule(sp, first_pos, seed):
-    """End-resolution molecule of species sp overlapping the given start positions."""
+def end_molecule(sp, first_pos, seed, name=None):
+    """End-resolution molecule of species sp overlapping the given start positions.  name: the molecule name in
+    the END topology (it need not equal the start one when the molecule is attached through the .end attribute)."""
     from mcx.build import molecule
-    key = (sp, seed)
+    key = (sp, seed, name)
     if key not in _END_CACHE:
         atoms, bonds = SPECIES[sp][2], SPECIES[sp][3]
         pts = generic_points(len(atoms), seed, tag=200 + ALL.index(sp)) * 0.35
-        _END_CACHE[key] = (molecule(sp, atoms, bonds, pts, resid_offset=END_RESID_OFFSET), pts)
+        _END_CACHE[key] = (molecule(name or sp, atoms, bonds, pts, resid_offset=END_RESID_OFFSET), pts)
     mol, pts = _END_CACHE[key]
     new = mol.deep_copy()
     new.atoms_positions = pts + np.mean(first_pos, axis=0)
@@ -422,6 +423,7 @@ class C05(Check):
         for m in world.mols:
             first.setdefault(m['sp'], m['pos'])
         attached, mapped = set(), set()
+        endname = {}
         n_extr = 0
         with Scratch() as d, owned_random(script):
             system = System(MemFile(world.gro, 'system.gro'),
@@ -432,11 +434,16 @@ class C05(Check):
                 desc = {'hist': events[:i + 1]}
                 state['phase'] = 'init'
                 try:
-                    if op == 'add':
-                        man.add_end_molecule(end_molecule(sp, first[sp], seed))
-                        attached.add(sp)
-                    elif op == 'set':
-                        man.molecule_correspondence[sp].end = end_molecule(sp, first[sp], seed)
+                    if op in ('add', 'set'):
+                        # set = attached by hand to the species named by the START topology; the end topology of S2 then
+                        # carries another molecule name (legal on this route).  While a species is attached, a
+                        # replacement must be an equal molecule: it keeps the name in use (by hand if that is S2AA)
+                        nm = endname.get(sp) if sp in attached else ('S2AA' if (op == 'set' and sp == 'S2') else None)
+                        if op == 'add' and nm is None:
+                            man.add_end_molecule(end_molecule(sp, first[sp], seed))
+                        else:
+                            man.molecule_correspondence[sp].end = end_molecule(sp, first[sp], seed, name=nm)
+                        endname[sp] = nm
                         attached.add(sp)
                     elif op == 'det':
                         man.molecule_correspondence[sp].end = None
